@@ -841,4 +841,61 @@ example : (match roundtrip toyLib toyJson [okFlow, okGet] with
 -- the same two flows over the library with the transcribed helpers
 example : (∀ f ∈ [okFlow, okGet], guardAll (mkLib toyPrim) f = true) := by decide +kernel
 
+/-! ### round 6 (owner fixes): a Lean refutation for each remaining guard conjunct (b, c, f, h), so that "the guard excludes
+exactly the recorded classes" rests on theorems: every conjunct is individually necessary -/
+
+section conjuncts
+
+/-- `refutes` for an arbitrary library -/
+def refutesWith (lib : Lib) (f : Flow) : Bool :=
+  match roundtrip lib toyJson [f] with
+  | some [f'] => !same lib f f'
+  | _ => true
+
+private theorem refuteWith_of {lib : Lib} (laws : Laws lib) {f : Flow} (h : refutesWith lib f = true) :
+    ¬ ImportExportPreserves := by
+  intro hp
+  obtain ⟨fs', h1, h2⟩ := hp _ lib toyJson laws toyJsonLaw [f]
+  unfold refutesWith at h
+  rw [h1] at h
+  cases h2 with
+  | cons hab hr =>
+    cases hr
+    simp [hab] at h
+
+/-- a library whose URL parser rejects everything (an IDN / non-ASCII URL for the real one) -/
+def noUrlLib : Lib := { toyLib with urlHostport := fun _ => none }
+/-- a library whose charset encoder is not the inverse of its decoder (content sniffing, BOMs, undecodable bytes for the real one) -/
+def lossyLib : Lib := { toyLib with csEnc := fun _ t => some (t.map fun _ => 0x3f) }
+
+theorem noUrlLaws : Laws noUrlLib := ⟨toyLaws.senc_sdec, toyLaws.sdec_ascii, toyLaws.method_rt, toyLaws.b64⟩
+theorem lossyLaws : Laws lossyLib := ⟨toyLaws.senc_sdec, toyLaws.sdec_ascii, toyLaws.method_rt, toyLaws.b64⟩
+
+/-- F-C41b: a CONNECT flow comes back with an empty URL -/
+def connectFlow : Flow := { okFlow with method := L "connect" }
+
+theorem import_export_preserves_counterexample_connect :
+    refutes connectFlow = true ∧ gMethod toyLib connectFlow = false ∧ ¬ ImportExportPreserves :=
+  ⟨by decide +kernel, by decide +kernel, refute_of (f := connectFlow) (by decide +kernel)⟩
+
+/-- F-C41c: a URL the importer cannot parse loses the whole file -/
+theorem import_export_preserves_counterexample_urlparse :
+    refutesWith noUrlLib okFlow = true ∧ gUrlParse noUrlLib okFlow = false ∧ ¬ ImportExportPreserves :=
+  ⟨by decide +kernel, by decide +kernel, refuteWith_of noUrlLaws (f := okFlow) (by decide +kernel)⟩
+
+/-- F-C41f: a POST body whose text does not re-encode to the same bytes is changed -/
+theorem import_export_preserves_counterexample_reqtext :
+    refutesWith lossyLib okFlow = true ∧ gReqText lossyLib okFlow = false ∧ ¬ ImportExportPreserves :=
+  ⟨by decide +kernel, by decide +kernel, refuteWith_of lossyLaws (f := okFlow) (by decide +kernel)⟩
+
+/-- F-C41h: the same for a response body exported as text (a GET, so that only the response side is concerned) -/
+def getFlow : Flow := { okFlow with method := L "GET", req := ⟨v11, [hdr "Host" "example.com"], []⟩ }
+
+theorem import_export_preserves_counterexample_resptext :
+    refutesWith lossyLib getFlow = true ∧ gRespText lossyLib getFlow = false ∧ gReqText lossyLib getFlow = true ∧
+      ¬ ImportExportPreserves :=
+  ⟨by decide +kernel, by decide +kernel, by decide +kernel, refuteWith_of lossyLaws (f := getFlow) (by decide +kernel)⟩
+
+end conjuncts
+
 end MitmVerif.Props.C41
